@@ -242,6 +242,126 @@ Proof.
     + intros E. rewrite (EQ E). apply Req_bool_true. reflexivity.
 Qed.
 
+(** ** the same for values up to 2 (spaces_insert_delete_only): absolute error at most half an ulp = 2^-53 below 2 *)
+Local Instance vexp64 : Valid_exp (SpecFloat.fexp prec64 emax64) := fexp_correct prec64 emax64 Hprec64.
+
+Lemma rnd_abs : forall q, (q = 0 \/ u53 <= q) -> q <= 2 -> Rabs (rnd64 q - q) <= u53.
+Proof.
+  intros q H0 H2. pose proof u53_pos as U. pose proof NRM_le_u53 as N.
+  destruct H0 as [->|H0]; [rewrite (rnd_0 prec64 emax64), Rminus_0_r, Rabs_R0; lra|].
+  destruct (Rlt_dec q 1) as [L1|G1].
+  - pose proof (rnd_rel prec64 emax64 Hprec64 q) as RR. rewrite u53_uu in RR.
+    rewrite (Rabs_pos_eq q) in RR by lra. specialize (RR ltac:(lra)).
+    eapply Rle_trans; [exact RR|]. rewrite <- (Rmult_1_r u53) at 2. apply Rmult_le_compat_l; lra.
+  - destruct (Req_dec q 2) as [->|N2].
+    + rewrite (rnd_fmt prec64 emax64 _ fmt_two). replace (2 - 2) with 0 by ring. rewrite Rabs_R0. lra.
+    + pose proof (error_le_half_ulp radix2 (SpecFloat.fexp prec64 emax64) (fun z => negb (Z.even z)) q) as E.
+      rewrite ulp_neq_0 in E by lra. unfold cexp in E.
+      rewrite (mag_unique radix2 q 1) in E.
+      * replace (/ 2 * bpow radix2 (SpecFloat.fexp prec64 emax64 1)) with u53 in E; [exact E|].
+        change (SpecFloat.fexp prec64 emax64 1) with (-52)%Z. unfold u53.
+        change (-52)%Z with (1 + -53)%Z. rewrite bpow_plus. change (bpow radix2 1) with 2. field.
+      * rewrite Rabs_pos_eq by lra. change (bpow radix2 (1 - 1)) with 1. change (bpow radix2 1) with 2. lra.
+Qed.
+
+Lemma rnd_sep2 : forall q1 q2, (q1 = 0 \/ u53 <= q1) -> (q2 = 0 \/ u53 <= q2) -> q1 <= 2 -> q2 <= 2 ->
+  2 * u53 < q2 - q1 -> rnd64 q1 < rnd64 q2.
+Proof.
+  intros q1 q2 A1 A2 B1 B2 H.
+  pose proof (Rabs_le_inv _ _ (rnd_abs q1 A1 B1)). pose proof (Rabs_le_inv _ _ (rnd_abs q2 A2 B2)). lra.
+Qed.
+
+Lemma quot_ge_u53 : forall d m, (0 <= d)%Z -> (1 <= m <= P53)%Z -> IZR d / IZR m = 0 \/ u53 <= IZR d / IZR m.
+Proof.
+  intros d m Hd Hm. destruct (Z.eq_dec d 0) as [->|D]; [left; unfold Rdiv; ring|right].
+  assert (M1 : 1 <= IZR m) by (apply (IZR_le 1); lia).
+  assert (M53 : IZR m <= IZR P53) by (apply IZR_le; lia).
+  assert (D1 : 1 <= IZR d) by (apply (IZR_le 1); lia).
+  pose proof P53_u53 as PU. pose proof u53_pos as U.
+  apply Rmult_le_reg_r with (IZR m); [lra|]. unfold Rdiv. rewrite Rmult_assoc, Rinv_l, Rmult_1_r by lra.
+  apply Rle_trans with (u53 * IZR P53); [apply Rmult_le_compat_l; lra|lra].
+Qed.
+
+Lemma quot_lt2 : forall d1 m1 d2 m2,
+  (0 <= d1 <= 2 * m1)%Z -> (0 <= d2 <= 2 * m2)%Z -> (1 <= m1)%Z -> (1 <= m2)%Z ->
+  (m1 * m2 < 2 ^ 52)%Z -> (d1 * m2 < d2 * m1)%Z ->
+  B2R (quot_fl d1 m1) < B2R (quot_fl d2 m2).
+Proof.
+  intros d1 m1 d2 m2 H1 H2 Hm1 Hm2 Hs Hlt.
+  assert (B1 : (m1 <= P53 /\ d1 <= P53)%Z) by (unfold P53; nia).
+  assert (B2 : (m2 <= P53 /\ d2 <= P53)%Z) by (unfold P53; nia).
+  destruct (quot_spec d1 m1 ltac:(lia) ltac:(lia)) as (_ & E1 & _).
+  destruct (quot_spec d2 m2 ltac:(lia) ltac:(lia)) as (_ & E2 & _).
+  rewrite E1, E2.
+  assert (M1 : 1 <= IZR m1) by (apply (IZR_le 1); lia).
+  assert (M2 : 1 <= IZR m2) by (apply (IZR_le 1); lia).
+  pose proof u53_pos as U.
+  set (M := IZR m1 * IZR m2). assert (MP : 0 < M) by (unfold M; nra).
+  set (q1 := IZR d1 / IZR m1). set (q2 := IZR d2 / IZR m2).
+  assert (Q1M : q1 * M = IZR (d1 * m2)) by (unfold q1, M; rewrite mult_IZR; field; lra).
+  assert (Q2M : q2 * M = IZR (d2 * m1)) by (unfold q2, M; rewrite mult_IZR; field; lra).
+  assert (Dif : 1 <= (q2 - q1) * M).
+  { rewrite Rmult_minus_distr_r, Q1M, Q2M, <- minus_IZR. apply (IZR_le 1). lia. }
+  assert (MB : M * (2 * u53) < 1).
+  { unfold M. rewrite <- mult_IZR.
+    assert (IZR (m1 * m2) <= IZR (2 ^ 52 - 1)) by (apply IZR_le; lia).
+    rewrite minus_IZR, (IZR_2p 52) in H by lia.
+    assert (E : bpow radix2 52 * (2 * u53) = 1).
+    { unfold u53. change 2 with (bpow radix2 1) at 1. rewrite <- !bpow_plus. reflexivity. }
+    assert (IZR (m1 * m2) * (2 * u53) <= (bpow radix2 52 - 1) * (2 * u53)) by (apply Rmult_le_compat_r; lra).
+    lra. }
+  assert (Le2 : forall d m, (0 <= d <= 2 * m)%Z -> (1 <= m)%Z -> IZR d / IZR m <= 2).
+  { intros d m Hd Hm. assert (1 <= IZR m) by (apply (IZR_le 1); lia).
+    apply Rmult_le_reg_r with (IZR m); [lra|]. unfold Rdiv. rewrite Rmult_assoc, Rinv_l, Rmult_1_r by lra.
+    rewrite <- (mult_IZR 2). apply IZR_le. lia. }
+  apply rnd_sep2.
+  - apply quot_ge_u53; lia.
+  - apply quot_ge_u53; lia.
+  - apply Le2; lia.
+  - apply Le2; lia.
+  - apply Rmult_lt_reg_r with M; [exact MP|]. fold q1 q2. lra.
+Qed.
+
+Lemma order_core : forall (x y : f64) (lt eq : Prop),
+  Fin64 x -> Fin64 y -> (lt \/ eq \/ ~ lt /\ ~ eq) ->
+  (lt -> B2R x < B2R y) -> (eq -> x = y) -> (~ lt -> ~ eq -> B2R y < B2R x) ->
+  (flt64 x y = true <-> lt) /\ (feq64 x y = true <-> eq) /\ (eq -> x = y).
+Proof.
+  intros x y lt eq F1 F2 T LTR EQ GTR.
+  unfold flt64, feq64. rewrite (Bltb_correct _ _ _ _ F1 F2), (Beqb_correct _ _ _ _ F1 F2).
+  split; [|split; [|exact EQ]].
+  - split.
+    + intros H. destruct (Rlt_bool_spec (B2R x) (B2R y)) as [Q|Q]; [|discriminate].
+      destruct T as [L|[E|[NL NE]]]; [exact L|exfalso|exfalso].
+      * rewrite (EQ E) in Q. lra.
+      * specialize (GTR NL NE). lra.
+    + intros L. apply Rlt_bool_true. apply LTR. exact L.
+  - split.
+    + intros H. destruct (Req_bool_spec (B2R x) (B2R y)) as [Q|Q]; [|discriminate].
+      destruct T as [L|[E|[NL NE]]]; [exfalso|exact E|exfalso].
+      * specialize (LTR L). lra.
+      * specialize (GTR NL NE). lra.
+    + intros E. rewrite (EQ E). apply Req_bool_true. reflexivity.
+Qed.
+
+Lemma quot_order_exact2 : forall d1 m1 d2 m2,
+  (0 <= d1 <= 2 * m1)%Z -> (0 <= d2 <= 2 * m2)%Z -> (1 <= m1)%Z -> (1 <= m2)%Z -> (m1 * m2 < 2 ^ 52)%Z ->
+  (flt64 (quot_fl d1 m1) (quot_fl d2 m2) = true <-> (d1 * m2 < d2 * m1)%Z) /\
+  (feq64 (quot_fl d1 m1) (quot_fl d2 m2) = true <-> (d1 * m2 = d2 * m1)%Z) /\
+  ((d1 * m2 = d2 * m1)%Z -> quot_fl d1 m1 = quot_fl d2 m2).
+Proof.
+  intros d1 m1 d2 m2 H1 H2 Hm1 Hm2 Hs.
+  assert (B1 : (m1 <= P53 /\ d1 <= P53)%Z) by (unfold P53; nia).
+  assert (B2 : (m2 <= P53 /\ d2 <= P53)%Z) by (unfold P53; nia).
+  destruct (quot_spec d1 m1 ltac:(lia) ltac:(lia)) as (F1 & _ & _).
+  destruct (quot_spec d2 m2 ltac:(lia) ltac:(lia)) as (F2 & _ & _).
+  apply order_core; try assumption.
+  - lia.
+  - apply quot_lt2; assumption.
+  - apply quot_eq; lia.
+  - intros NL NE. apply quot_lt2; try assumption; lia.
+Qed.
+
 (** * the model functions *)
 (** the premise of the float theorems: [usize as f64] is exact (no text has 2^53 characters) *)
 Definition len_ok (a b : list cluster) : Prop := (Z.of_nat (length a) + Z.of_nat (length b) <= P53)%Z.
@@ -403,6 +523,23 @@ Proof.
     + rewrite !norm_den_Z.
       apply (cross_bound _ _ _ _ 2 (2 ^ 25)); unfold P53; try lia.
     + cbn [norm_den]. unfold P53. lia.
+Qed.
+
+(** every flag combination, texts shorter than 2^26 characters *)
+Lemma norm_fl_order_exact_all_l : forall fl fl' nm a b a' b',
+  short a -> short b -> short a' -> short b' ->
+  let x := distance fl nm a b in let y := distance fl' nm a' b' in
+  (flt64 (distance_fl fl nm a b) (distance_fl fl' nm a' b') = true <-> (x < y)%Q) /\
+  (feq64 (distance_fl fl nm a b) (distance_fl fl' nm a' b') = true <-> (x == y)%Q) /\
+  ((x == y)%Q -> distance_fl fl nm a b = distance_fl fl' nm a' b').
+Proof.
+  intros fl fl' nm a b a' b' Sa Sb Sa' Sb' x y. unfold short in *.
+  pose proof (dist_le_sum fl a b) as L. pose proof (dist_le_sum fl' a' b') as L'.
+  unfold distance_fl. rewrite !q_fl_quot. unfold x, y, Qlt, Qeq, distance. cbn [Qnum Qden].
+  destruct nm.
+  - rewrite !norm_den_Z. apply quot_order_exact2; try lia.
+    apply Z.le_lt_trans with ((2 ^ 26 - 1) * (2 ^ 26 - 1))%Z; [apply Z.mul_le_mono_nonneg; lia|lia].
+  - cbn [norm_den]. apply quot_order_exact; unfold P53; lia.
 Qed.
 
 (** [distances]: Err exactly on a length mismatch, else the float distance element-wise *)
